@@ -911,8 +911,7 @@ def _actuator_force(
     act_dot_out[worldid, act_last] = act_dot
 
     if actuator_actearly[uid]:
-      if dyntype == DynType.INTEGRATOR or dyntype == DynType.NONE or dyntype == DynType.DCMOTOR:
-        act = act_in[worldid, act_last]
+      act = act_in[worldid, act_last]
 
       if dyntype == DynType.DCMOTOR:
         gainprm = actuator_gainprm[worldid % actuator_gainprm.shape[0], uid]
